@@ -86,6 +86,17 @@ def gen_wellformed(rng, enz, nmods=None, closing=None):
         for e in [v] + ms:
             if rng.random() < 0.7:
                 e["topo"] = rng.choice(["circular", "Circular", "CIRCULAR", "cIrCuLaR"])
+    if rng.random() < 0.3:
+        # documented inputs: feature tables, reference lists and citations (a property module that generates its own
+        # annotations overwrites these)
+        for e in [v] + ms:
+            if rng.random() < 0.7:
+                n = len(e["word"])
+                refs = list(dict.fromkeys(100 + rng.randrange(20) for _ in range(rng.choice([0, 1, 2, 3, 11]))))
+                feats = [f for f in gen.gen_features(rng, n, rng.choice([1, 2, 4]), allow_cites=len(refs))
+                         if all(0 <= p[0] <= p[1] <= n for p in f.parts)]
+                e["refs"] = refs
+                e["feats"] = feats_to_json(feats)
     info = {"expected": expected, "vparts": vd, "mparts": [md for _, md in mods], "chain": [i + 1 for i in range(len(ms))]}
     return case, info
 
